@@ -18,7 +18,7 @@ pub fn def() -> CheckDef {
         bounds_quick: "W<=3 nodes, X<=2 hyperedges, S,T<=3 incidences, interfaces <=2; both arithmetic profiles (dev: overflow panics, at width 16; release: wrapping, at width 64)",
         bounds_thorough: "W<=4, X<=3, S,T<=4, interfaces <=3; both profiles",
         jobs,
-        budget_s: (170, 3000),
+        budget_s: (170, 1500),
     }
 }
 
@@ -103,7 +103,7 @@ fn oracle_degrees(inp: &PV, out: &PV) -> T {
 pub fn jobs(tier: Tier, seed: u64) -> Vec<Job> {
     let per_job = Duration::from_secs(match tier {
         Tier::Quick => 60,
-        Tier::Thorough => 900,
+        Tier::Thorough => 600,
     });
     let (wm, xm, im, bm) = match tier {
         Tier::Quick => (3, 2, 3, 2),
